@@ -312,13 +312,31 @@ def gen_case(rng):
     rest = sorted(rng.sample(range(first + 1, N), min(n - 1, N - first - 1))) if N - first - 1 > 0 else []
     events = [first] + rest + [N]
     vals = [rng.choice(codes) for _ in events[:-1]]
+    directed = None
+    if len(events) >= 3 and len(events) - 1 <= ncodes and rng.random() < 0.12:
+        # every event has its own value; an add() then overrides one event with its predecessor's value, which
+        # leaves a repeat AND an unused entry in unique_values (as many events as unique values), and the
+        # repeats are removed afterwards
+        vals = rng.sample(range(ncodes), len(events) - 1)
+        k = rng.randrange(1, len(events) - 1)
+        directed = [('add', events[k], vals[k - 1]), ('rr',)]
     case = dict(kind='seq', alpha=alpha, vals=vals, events=events, ops=[],
                 arr=[rng.random() < 0.5 for _ in range(5)])
     try:
         impl = Impl(case)
     except Exception:   # noqa: BLE001
         return case
-    for k in range(rng.randint(1, 7)):
+    if directed:
+        for k, op in enumerate(directed):
+            case['ops'].append(op)
+            try:
+                impl.run(op, case['arr'][k % len(case['arr'])])
+            except Exception:   # noqa: BLE001
+                return case
+        if rng.random() < 0.5:
+            return case
+    k0 = len(case['ops'])
+    for k in range(k0, k0 + rng.randint(1, 7)):
         op = gen_op(rng, impl, codes, ncodes)
         case['ops'].append(op)
         try:
